@@ -285,11 +285,11 @@ class Interp:
             self.trace.add('skip')
         return r
 
-    def guarded(self, thunk, owner, what):
+    def guarded(self, thunk, owner, what, budget=None):
         """Run a desper call under the step budget.  Injected exceptions are
         returned to the caller; anything else is a violation."""
         try:
-            with kernel.budget(OP_BUDGET):
+            with kernel.budget(budget or OP_BUDGET):
                 thunk()
             return None
         except Violation:
@@ -576,6 +576,7 @@ class Interp:
         for k in range(n):
             self.op_dispatch(['dispatch', ev, base + k, 1])
         self.probes['burst>=66'] += n >= 66
+        self.probes['burst>4096'] += n > 4096
 
     def check_dispatch(self, rec, aborted):
         token, ev = rec['token'], rec['ev']
@@ -647,7 +648,9 @@ class Interp:
         try:
             e = self.guarded(
                 lambda: setattr(self.d, 'dispatch_enabled', True),
-                ('C04',), 'enable')
+                ('C04',), 'enable',
+                budget=OP_BUDGET + 40 * len(self.queue) * (
+                    len(self.registered) + 2))
         finally:
             self.dstack.pop()
         if not nested:
@@ -730,14 +733,15 @@ class Interp:
                 if e[3] not in span:
                     span[e[3]] = [set(reg), k, k]
                 span[e[3]][2] = k
+        import bisect
         starts = sorted(v[1] for v in span.values())
         for token, (reg0, first, last) in span.items():
             q = queued[token]
             if token in self.half or not q.get('had_listener'):
                 continue
             # the event is in flight until the next queued one starts
-            nxt = [x for x in starts if x > first]
-            last = (nxt[0] - 1) if nxt else len(window) - 1
+            k = bisect.bisect_right(starts, first)
+            last = (starts[k] - 1) if k < len(starts) else len(window) - 1
             touched = {e[1] for e in window[first:last + 1] if e[0] == 'reg'}
             got = Counter(e[1] for e in window[first:last + 1]
                           if e[0] == 'cb' and e[3] == token)
@@ -1010,6 +1014,16 @@ def generate(prop, run_seed, tier='quick', tolerate=frozenset()):
                         and rng.random() < .5 else 'add_handler', s])
     while len(ops) < n:
         ops.append(gen_top_op(rng.choices(kinds, wts)[0], rng, cfg, state))
+    if prop == 'C04' and crng.random() < .004:
+        # a very long backlog (bounded buffers): one listener, no scripts
+        ops = [['add_handler', 0], ['disable'],
+               ['burst', 'a', crng.randint(4097, 4400), 10000],
+               ['enable'], ['enable']]
+        cfg['hclasses'] = [{'base': None, 'mixin': False,
+                            'deco': {'names': ['a'], 'maps': {}}}]
+        cfg['handlers'] = [0]
+        return [{'format': 1, 'engine': 'dispatch', 'config': cfg,
+                 'ops': ops, 'scripts': {}, 'run_seed': run_seed}]
     if prop == 'C04' and crng.random() < .12:
         # a long backlog: thresholds of batching "optimisations"
         ev = rng.choice(EVENTS[:3])
@@ -1161,7 +1175,7 @@ PROBES = {
             'nested_enable_inside_release', 'raise_then_second_enable',
             'dispatch_during_release', 'unknown_name_queued',
             'release_multi', 'registration_changed_during_release',
-            'burst>=66'],
+            'burst>=66', 'burst>4096'],
     'C10': ['victim_ahead', 'victim_behind', 'drop_via.registry',
             'drop_via.remove_component', 'drop_via.delete_now',
             'drop_via.deferred', 'drop_via.clear',
